@@ -347,7 +347,9 @@ fn gen_call(rng: &mut Rng, v: &View, mask: u32, wild_pct: u64) -> Call {
         72..=75 => Call::RemoveVertex(gen_dart(rng, v, t, wild)),
         76..=91 if mask != 0 => {
             let ks: Vec<u32> = (0..N_KINDS).filter(|k| mask & (1 << k) != 0).collect();
-            Call::WriteAttr(*rng.pick(&ks), gen_dart(rng, v, t, wild), rng.below(40) as u32)
+            // identifiers >= n_darts are outside the contract of attribute writes (the storages
+            // have one spare slot that add_free_dart would later expose)
+            Call::WriteAttr(*rng.pick(&ks), gen_dart(rng, v, t, wild).min(v.n - 1), rng.below(40) as u32)
         }
         92..=95 if mask != 0 => {
             let ks: Vec<u32> = (0..N_KINDS).filter(|k| mask & (1 << k) != 0).collect();
@@ -359,6 +361,30 @@ fn gen_call(rng: &mut Rng, v: &View, mask: u32, wild_pct: u64) -> Call {
             |d| loose || v.b[d as usize] == [0, 0, 0],
             wild,
         )),
+    }
+}
+
+/// link/sew/unsew calls chosen so as to mostly succeed (they are the ones with attribute updates)
+fn gen_sewish(rng: &mut Rng, v: &View) -> Call {
+    let loose = rng.chance(1, 10);
+    match rng.below(6) {
+        0 => {
+            let l = gen_dart(rng, v, |d| loose || v.b[d as usize][1] == 0, false);
+            let r = gen_dart(rng, v, |d| loose || v.b[d as usize][0] == 0, false);
+            Call::Sew1(l, r)
+        }
+        1 | 2 => {
+            let l = gen_dart(rng, v, |d| loose || v.b[d as usize][2] == 0, false);
+            let r = gen_dart(rng, v, |d| (loose || v.b[d as usize][2] == 0) && d != l, false);
+            Call::Sew2(l, r)
+        }
+        3 => Call::Unsew1(gen_dart(rng, v, |d| loose || v.b[d as usize][1] != 0, false)),
+        4 => Call::Unsew2(gen_dart(rng, v, |d| loose || v.b[d as usize][2] != 0, false)),
+        _ => {
+            let l = gen_dart(rng, v, |d| loose || v.b[d as usize][1] == 0, false);
+            let r = gen_dart(rng, v, |d| loose || v.b[d as usize][0] == 0, false);
+            Call::Link1(l, r)
+        }
     }
 }
 
@@ -677,6 +703,67 @@ fn main() {
                     let mut it = ops.into_iter();
                     run_case(&format!("x{n}_{id}"), 0, n, &mut |_, _| it.next(), &mut out);
                     id += 1;
+                }
+            }
+        }
+        "fault" | "compose" => {
+            let mut rng = Rng::new(seed);
+            for i in 0..ncases {
+                let mask = if mode == "fault" { [15u32, 15, 11, 7, 9, 3][rng.below(6) as usize] } else { rng.below(16) as u32 };
+                let n0 = 2 + rng.below(maxn) as u32;
+                let nops = 1 + rng.below(maxops as u64) as usize;
+                let mut r2 = Rng::new(rng.next());
+                // 1. a random prefix, recorded so that it can be replayed identically
+                let mut m = build2(n0 as usize, mask);
+                let mut prefix: Vec<Op> = vec![Op::Obs(false)];
+                for _ in 0..nops {
+                    let o = gen_op(&mut r2, &m, mask, 0, 0);
+                    exec(&mut m, &o);
+                    prefix.push(o);
+                }
+                prefix.push(Op::Obs(true));
+                if mode == "fault" {
+                    // 2. one final call or block, run once per position of the failing law call
+                    let v = view(&m);
+                    let fin = |fa: Option<u64>, r: &mut Rng| -> Op {
+                        if r.chance(3, 4) {
+                            Op::Force(fa, gen_sewish(r, &v))
+                        } else {
+                            Op::Block(fa, (0..2).map(|_| gen_sewish(r, &v)).collect())
+                        }
+                    };
+                    let rs = r2.next();
+                    let o = fin(None, &mut Rng::new(rs));
+                    reset_last();
+                    exec(&mut m, &o); // counting run
+                    let calls = last_law_calls().min(12);
+                    for k in std::iter::once(None).chain((0..calls).map(Some)) {
+                        let mut ops = prefix.clone();
+                        ops.push(fin(k, &mut Rng::new(rs)));
+                        let mut it = ops.into_iter();
+                        let kk = k.map_or("n".to_string(), |x| x.to_string());
+                        run_case(&format!("{tag}{i}k{kk}"), mask, n0, &mut |_, _| it.next(), &mut out);
+                    }
+                } else {
+                    // 2. calls generated against the evolving map (so that later calls read what
+                    //    earlier ones wrote), executed one by one: case b; as one block: case a
+                    let ncalls = 2 + r2.below(4) as usize;
+                    let mut calls = Vec::new();
+                    let mut bops = prefix.clone();
+                    for _ in 0..ncalls {
+                        let v = view(&m);
+                        let c = if r2.chance(2, 3) { gen_sewish(&mut r2, &v) } else { gen_call(&mut r2, &v, mask, 0) };
+                        let o = Op::Force(None, c.clone());
+                        exec(&mut m, &o);
+                        calls.push(c);
+                        bops.push(o);
+                    }
+                    let mut aops = prefix.clone();
+                    aops.push(Op::Block(None, calls));
+                    let mut it = bops.into_iter();
+                    run_case(&format!("{tag}{i}b"), mask, n0, &mut |_, _| it.next(), &mut out);
+                    let mut it = aops.into_iter();
+                    run_case(&format!("{tag}{i}a"), mask, n0, &mut |_, _| it.next(), &mut out);
                 }
             }
         }
